@@ -229,7 +229,34 @@ def r20_6(ctx):
            'state.value = State.SHUTDOWN on every normal path')
 
 
+def r20_7(ctx):
+    ctx.rule('R20.7', 'every proxy, also one rebuilt without taking a reference, re-registers itself after a fork / '
+                      'in a started child: the after-fork hook is installed on every path through BaseProxy.__init__',
+             floor=2)
+    m = ctx.model
+    fi = m.func('managers:BaseProxy.__init__')
+    cfg = fi.cfg
+    reg = [(n, c) for (n, c) in q.calls(fi, lambda t: t.endswith('register_after_fork'))]
+    q.need(reg, 'BaseProxy.__init__ does not register an after-fork hook')
+    ok = cfg.must_pass([cfg.entry], [cfg.exit], [n for (n, c) in reg], skip_labels=('x',))[0]
+    ctx.ob('R20.7', 'BaseProxy.__init__:after-fork-hook-on-every-path', ok, fi, reg[0][1],
+           'register_after_fork(self, BaseProxy._after_fork) is unconditional' if ok else
+           'a proxy built with incref=False (every proxy unpickled while a process is being started) gets no '
+           'after-fork hook: the child never takes its own reference and the server may dispose of the object while '
+           'the child still holds the proxy')
+    for (n, c) in reg:
+        ok = len(c.args) == 2 and ast.unparse(c.args[0]) == 'self' and ast.unparse(c.args[1]).endswith('._after_fork')
+        ctx.ob('R20.7', 'BaseProxy.__init__:hook-is-_after_fork', ok, fi, c, ast.unparse(c))
+    af = m.func('managers:BaseProxy._after_fork')
+    ok = bool(q.calls(af, 'self._incref'))
+    ctx.ob('R20.7', 'BaseProxy._after_fork:takes-a-reference', ok, af, None, '_after_fork calls self._incref()')
+
+
 def run(ctx):
+    r20_7(ctx)
+    # a generated proxy type is cached under everything it was generated from (type name and exposed methods)
+    from .generic import memo_key_covers_inputs
+    memo_key_covers_inputs(ctx, 'R20.8', ['managers'], floor=1)
     r20_6(ctx)
     r20_1(ctx)
     r20_2(ctx)
@@ -244,6 +271,11 @@ def run(ctx):
 
 _M = 'billiard/managers.py'
 MUTANTS = [
+    ('after-fork-hook-only-with-incref', _M, "        if incref:\n            self._incref()\n\n        util.register_after_fork(self, BaseProxy._after_fork)\n",
+     "        if incref:\n            self._incref()\n            util.register_after_fork(self, BaseProxy._after_fork)\n", 'R20.7'),
+    ('proxy-type-cached-by-name-only', _M,
+     "        return _cache[(name, exposed)]\n    except KeyError:\n        pass\n\n    dic = {}\n\n    for meth in exposed:\n        exec('''def %s(self, *args, **kwds):\n        return self._callmethod(%r, args, kwds)''' % (meth, meth), dic)\n\n    ProxyType = type(name, (BaseProxy,), dic)\n    ProxyType._exposed_ = exposed\n    _cache[(name, exposed)] = ProxyType\n",
+     "        return _cache[name]\n    except KeyError:\n        pass\n\n    dic = {}\n\n    for meth in exposed:\n        exec('''def %s(self, *args, **kwds):\n        return self._callmethod(%r, args, kwds)''' % (meth, meth), dic)\n\n    ProxyType = type(name, (BaseProxy,), dic)\n    ProxyType._exposed_ = exposed\n    _cache[name] = ProxyType\n", 'R20.8'),
     ('dead-server-keeps-cached-connections', _M, "        if process.is_alive():\n            util.info('sending shutdown message to manager')\n",
      "        if not process.is_alive():\n            state.value = State.SHUTDOWN\n            return\n        if True:\n            util.info('sending shutdown message to manager')\n", 'R20.6'),
     ('shutdown-state-only-when-alive', _M, "        state.value = State.SHUTDOWN\n        try:\n            del BaseProxy._address_to_local[address]\n",
